@@ -1,5 +1,5 @@
 (* C11 - collections are isolated from one another. Property theorems only; proofs in KvFrame.v. *)
-From Rosmar Require Import Base Json Crc Hlc Kv Store Trace KvTac KvRowOk KvLift KvFrame.
+From Rosmar Require Import Base Json Crc Hlc Kv Store Trace KvTac KvRowOk KvLift KvFrame KvTrace.
 
 (* any call addressed to collection c - every entry point, every argument - leaves the documents,
    the backfill (hence xattrs, expiry, CAS, revision) and the identity of every other collection c'
@@ -37,3 +37,10 @@ Print Assumptions C11_recreate.
 Theorem C11_tables_ok : forall steps, tables_ok (sfinal_from store0 steps).
 Proof. intros steps. exact (reachable_tables_ok steps store0 store0_tables_ok). Qed.
 Print Assumptions C11_tables_ok.
+
+(* the executable checker that is run on the traces recorded from the implementation (a step addressed to one
+   collection leaves the rows, the dump order and the list of collections outside it as they were; a drop
+   removes exactly the collection; a creation yields an empty collection) accepts every history of the model *)
+Theorem C11_checker_accepts_every_model_history : forall c : scase, wf_case c -> chk_C11_kv (c, srun c) = true.
+Proof. exact C11_kv_sound. Qed.
+Print Assumptions C11_checker_accepts_every_model_history.
